@@ -8,8 +8,8 @@ from vf.props.common import assume, cover
 
 # event classes that need a connected transport
 MSG_EVENTS = ('open_ok', 'open_badver', 'open_badas', 'open_hold12', 'open_badparam', 'open_short', 'ka', 'upd',
-              'upd_bad', 'upd_trunc', 'notif_ver', 'notif', 'notif_then_more', 'rr', 'rr128', 'hdr_marker', 'hdr_len', 'hdr_type',
-              'badlen')
+              'upd_bad', 'upd_trunc', 'upd_mp', 'upd_max', 'notif_ver', 'notif', 'notif_then_more', 'rr', 'rr128', 'hdr_marker',
+              'hdr_len', 'hdr_type', 'badlen')
 
 EVENTS_BY_STATE = {
     S.IDLE: ['start_idlehold', 'manual_start', 'manual_stop'],
@@ -27,7 +27,7 @@ def oracle_event(ev):
     """(oracle event class, expected subcode or None)"""
     m = {'open_badver': ('open_bad', 1), 'open_badas': ('open_bad', 2), 'open_hold12': ('open_bad', 6),
          'open_badparam': ('open_bad', 4), 'hdr_marker': ('hdr', 1), 'hdr_len': ('hdr', 2), 'hdr_type': ('hdr', 3), 'badlen': ('hdr', 2),
-         'upd_trunc': ('upd_bad', None), 'notif_then_more': ('notif', None)}
+         'upd_trunc': ('upd_bad', None), 'notif_then_more': ('notif', None), 'upd_mp': ('upd', None), 'upd_max': ('upd', None)}
     return m.get(ev, (ev, None))
 
 
@@ -77,6 +77,33 @@ def message_for(ev, w, a, b, c):
         # ORIGIN with an undefined value (a malformation the decoder checks)
         assume(3 <= a < 256)
         return S.frame(2, struct.pack('!HH', 0, 4) + bytes([0x40, 1, 1, a]))
+    if ev == 'upd_mp':
+        # well-formed UPDATEs that carry only an MP attribute: a flowspec / VPNv4 withdrawal of a rule that was never
+        # announced, an IPv6 withdrawal / announcement, an address family the agent has no name for
+        kind = cfg.get('mp_kind', 'fs-withdraw')
+        assume(0 <= a < 256)
+        if kind == 'fs-withdraw':
+            val = struct.pack('!HB', 1, 133) + bytes([5, 1, 24, 10, a, 0])
+            attrs = bytes([0x80, 15, len(val)]) + val
+        elif kind == 'vpn-withdraw':
+            val = struct.pack('!HB', 1, 128) + bytes([88 + 24, 0x80, 0, 0, 0, 0, 0, 100, 0, 0, 0, 100, 10, a, 0])
+            attrs = bytes([0x80, 15, len(val)]) + val
+        elif kind == 'ipv6-unreach':
+            val = struct.pack('!HB', 2, 1) + bytes([32, 0x20, 1, 0x0d, a])
+            attrs = bytes([0x80, 15, len(val)]) + val
+        elif kind == 'unknown-family':
+            val = struct.pack('!HB', 3, a) + bytes([0])
+            attrs = bytes([0x80, 15, len(val)]) + val
+        else:
+            raise AssertionError(kind)
+        return S.frame(2, struct.pack('!HH', 0, len(attrs)) + attrs)
+    if ev == 'upd_max':
+        # a well-formed UPDATE of exactly 4096 octets (an unknown optional transitive attribute as filler)
+        assume(0 <= a <= 2)
+        fill = 4096 - 23 - 22        # header + two length fields; ORIGIN 4, AS_PATH 7, NEXT_HOP 7, filler header 4
+        attrs = bytes([0x40, 1, 1, a]) + bytes([0x40, 2, 4, 2, 1]) + struct.pack('!H', 65002) + bytes([0x40, 3, 4, 10, 0, 0, 2]) + \
+            bytes([0xd0, 99, fill // 256, fill % 256]) + bytes(fill)
+        return S.frame(2, struct.pack('!HH', 0, len(attrs)) + attrs)
     if ev == 'upd_trunc':
         # an UPDATE of legal frame length whose withdrawn-routes length (a) or attribute length (b) runs past its end
         assume(0 <= a < 65536 and 0 <= b < 65536)
